@@ -97,7 +97,7 @@ contract(S + "repair@valid_tree", props=["C18"],
          requires="Verdict(self.formula, inp, self.grammar) == 1",
          fragment=dict(rule="until_stmt", starts_with="formula = self.top_constant.map"),
          ensures={"returned_unchanged": "result is not None and result == inp"},
-         path_hints=dict(HINTS, calls=dict(HINTS["calls"], **{"is_successful(self.top_constant)": "top_ok"})),
+         path_hints=dict(HINTS, callable_variant=False, calls=dict(HINTS["calls"], **{"is_successful(self.top_constant)": "top_ok"})),
          closure={"top_ok": "Bool"},
          crosscheck=False)
 contract(S + "repair@valid_str", props=["C18"],
@@ -105,6 +105,31 @@ contract(S + "repair@valid_str", props=["C18"],
          requires=f"Member(self.grammar, '<start>', inp) and {VSTART} == 1",
          fragment=dict(rule="until_stmt", starts_with="formula = self.top_constant.map"),
          ensures={"returned_parsed_unchanged": "result is not None and result == TreeOf(PTree(self.grammar, '<start>', inp))"},
-         path_hints=dict(HINTS, calls=dict(HINTS["calls"], **{"is_successful(self.top_constant)": "top_ok"})),
+         path_hints=dict(HINTS, callable_variant=False, calls=dict(HINTS["calls"], **{"is_successful(self.top_constant)": "top_ok"})),
          closure={"top_ok": "Bool"},
          crosscheck=False)
+
+
+# ---- mutate only hands out what repair returned (C18) ------------------------------------------------------------------
+# repair's general post-condition "a returned tree is judged TRUE" is ASSUMED here (its search is outside the subset
+# and is checked by bounded C18: `repair:returns-constraint-violating-tree`); PROVED from mutate's real text: the
+# tree mutate returns is one that repair returned for a mutant, hence judged TRUE -- mutate adds no path of its own
+# that could return an unrepaired mutant.
+contract(S + "repair@any", props=["C18"],
+         types={"self": SOLV, "inp": DTREE, "fix_timeout_seconds": "Any"}, returns=f"Opt[{DTREE}]",
+         ensures="implies(result is not None, Verdict(self.formula, result, self.grammar) == 1)",
+         assumed=True, path_hints={"callable_variant": True},
+         why_assumed="general post-condition of repair (abstraction, Z3 completion): decided by bounded C18; the early "
+                     "exit for already valid inputs is proved above (repair@valid_tree / repair@valid_str)")
+contract(S + "mutate@tree", props=["C18"],
+         types={"self": SOLV, "inp": DTREE, "min_mutations": "Int", "max_mutations": "Int", "fix_timeout_seconds": "Any"},
+         returns=DTREE,
+         ensures={"result_is_judged_true": "Verdict(self.formula, result, self.grammar) == 1"},
+         loops={0: dict(invariant="True")},
+         path_hints={"calls": {"Mutator(self.grammar, min_mutations=min_mutations, max_mutations=max_mutations, graph=self.graph)": "None",
+                               "mutator.mutate(inp)": "uf_sort('mutant', 'DerivationTree', inp, uf_int('round'))",
+                               "mutated.structurally_equal(inp)": "uf_bool('same_structure', mutated, inp)",
+                               "is_successful(maybe_fixed)": "maybe_fixed is not None",
+                               "maybe_fixed.unwrap()": "maybe_fixed"}},
+         crosscheck=False,
+         note="termination of the `while True` loop is not proved (bounded C18 runs mutate under a watchdog)")
